@@ -7,12 +7,14 @@ pub mod c04;
 pub mod c14;
 pub mod c15;
 pub mod c16;
+pub mod c17;
 pub mod c18;
 
 pub fn property(id: &str, tier: Tier) -> Option<PropertyDef> {
 	match id {
 		"C01" => Some(c01::def(tier)),
 		"C16" => Some(c16::def(tier)),
+		"C17" => Some(c17::def(tier)),
 		"C18" => Some(c18::def(tier)),
 		"C15" => Some(c15::def(tier)),
 		"C14" => Some(c14::def(tier)),
@@ -23,4 +25,4 @@ pub fn property(id: &str, tier: Tier) -> Option<PropertyDef> {
 	}
 }
 
-pub const ALL: &[&str] = &["C01", "C02", "C03", "C04", "C14", "C15", "C16", "C18"];
+pub const ALL: &[&str] = &["C01", "C02", "C03", "C04", "C14", "C15", "C16", "C17", "C18"];
